@@ -39,9 +39,11 @@ var (
 )
 
 func getNodeBreakersOfResource(resource string) map[string]circuitbreaker.CircuitBreaker {
+	// The per-resource map is written in place by add/deleteNodeBreakerOfResource,
+	// so it has to be copied while the lock is held.
 	updateMux.RLock()
+	defer updateMux.RUnlock()
 	nodes := nodeBreakers[resource]
-	updateMux.RUnlock()
 	ret := make(map[string]circuitbreaker.CircuitBreaker, len(nodes))
 	for address, breaker := range nodes {
 		ret[address] = breaker
